@@ -431,7 +431,10 @@ func (c *Client) discover(ctx context.Context, cs *ClientSession) (*InitializeRe
 	// Since supportedProtocolVersions is defined in descending order (newest to oldest),
 	// the first match we find is the highest supported version.
 	var negotiated string
-	if slices.Contains(res.SupportedVersions, protocolVersion) {
+	if slices.Contains(res.SupportedVersions, protocolVersion) && slices.Contains(supportedProtocolVersions, protocolVersion) {
+		// The requested version is honored only if this SDK implements it: a
+		// server that lists an unknown requested version (for example a newer
+		// revision) must not make the session run at that version.
 		negotiated = protocolVersion
 	} else {
 		negotiated = negotiateMutuallySupportedVersion(res.SupportedVersions)
